@@ -59,15 +59,18 @@ theorem pcrel_slice_in_window (src : Bytes) (h : (decode src).pcrel ≠ 0) :
   have := err_len_le src
   omega
 
-/-- What `fixBlock` (`internal/patch/fix_addr_amd64.go:63`, `ins.Opcode != 0`) relies on: an instruction with a PC-relative field
-    is never reported with the numeric `Opcode` 0.  **Stated, not proved**: it needs an invariant relating `inst.Opcode` to the
-    consumed opcode bytes along every table path, which is not built yet.  It is enforced on every evaluation of the implementation
-    by the oracle of `checks/C16.py`; `Inst.Opcode` itself is part of the three-way compared observation.  The unconditional
-    variant ("every successful decode has Opcode ≠ 0") is false — `Findings/C16OpcodeZero.lean` (`00 00`). -/
-def pcrel_opcode_nonzero : Prop :=
-  ∀ src : Bytes, (decode src).err = .ok → (decode src).pcrel ≠ 0 → (decode src).opcode ≠ 0
+/-- What `fixBlock` (`internal/patch/fix_addr_amd64.go:63`, `if ins != nil && ins.Opcode != 0`) relies on for every relocatable
+    instruction: a successful decode that reports a PC-relative field never has the numeric `Inst.Opcode` equal to 0.
+    Proof: the per-pc certificate carries an abstract `Opcode` state `z` (0 = non-zero on every path, k+1 = at most k bytes shifted in,
+    possibly all zero); the kernel-checked chunk lemmas require `z = 0` at every `xArgRel8/16/32` and `z ≤ 4` (room for the ModR/M
+    byte, or already non-zero) at every `xReadSlashR`/`xCondSlashR`; a RIP-relative ModR/M byte has `rm = 5`, hence is non-zero and
+    is shifted into `Opcode`.  The unconditional variant ("every successful decode has Opcode ≠ 0") is false —
+    `Findings/C16OpcodeZero.lean` (`00 00`, which has no PC-relative field). -/
+theorem pcrel_opcode_nonzero (src : Bytes) (hok : (decode src).err = .ok) (hp : (decode src).pcrel ≠ 0) :
+    (decode src).opcode ≠ 0 :=
+  (C16L.decode_good src).opc hok hp
 
-/-- instances: `CALL rel32` (E8), `JE rel8` (74), `MOV RAX,[RIP+d]` (48 8B 05), `PSHUFB XMM0,[RIP+d]` (66 0F 38 00 05: ModRM is the
+/-- the hypotheses are satisfiable; instances: `CALL rel32` (E8), `JE rel8` (74), `MOV RAX,[RIP+d]` (48 8B 05), `PSHUFB XMM0,[RIP+d]` (66 0F 38 00 05: ModRM is the
     fourth opcode byte and is recorded, Opcode = 0x0F380005) -/
 example : (decode [0xe8#8, 0, 0, 0, 0]).opcode = 0xe8000000 ∧ (decode [0x74#8, 0x10]).opcode = 0x74000000 ∧
     (decode [0x48#8, 0x8b, 0x05, 1, 0, 0, 0]).opcode = 0x8b050000 ∧
